@@ -155,6 +155,8 @@ type world struct {
 	sim *simrt.Sim
 	ops []*simdrv.OpCall
 	tel []*telOp
+	// the bounded Settle phase after the workload ended with nothing runnable and nothing waking up
+	settled bool
 }
 
 type planOp struct {
@@ -218,7 +220,12 @@ func (w *world) finish(pendingDesc func() []string) bool {
 	out := w.sim.Run()
 	pending := pendingDesc()
 	if out.Kind == simrt.Done {
-		w.sim.Settle(800, 2*time.Minute)
+		// "eventually" claims (a batch processor whose Shutdown gave up on its context shuts its exporter
+		// down from a background goroutine) are only made about runs that came to rest
+		w.settled = w.sim.Settle(3000, 2*time.Minute).Detail == "settled"
+		if !w.settled {
+			r.Probe("not-settled")
+		}
 	}
 	r.Finish(out)
 	r.Res.NonTrivial = w.sim.Switches > 0 && len(w.sim.TaskNames()) >= 2
@@ -577,7 +584,7 @@ func (w *world) traceScenario(plans [][]planOp) {
 			if returned && !unregistered {
 				if len(p.shutdowns) == 0 {
 					r.Violate(prop, "never-shut-down", "never-shut-down/processor", "provider Shutdown has returned but registered processor %d was never shut down", p.id)
-				} else if p.exp != nil && len(p.exp.shutdowns) == 0 {
+				} else if p.exp != nil && len(p.exp.shutdowns) == 0 && w.settled {
 					r.Violate(prop, "never-shut-down", "never-shut-down/trace-exporter", "provider Shutdown has returned and processor %d (%s) was shut down, but its exporter never was", p.id, p.kind)
 				}
 			}
